@@ -4,8 +4,8 @@
    back end computes; [c12_good uses defs] = every used name is among the defined ones. *)
 From Coq Require Import String List.
 From TS Require Import Model.Str Model.Outcome Model.Unicode Model.Types Model.Parse Model.Lang.Common Model.Lang.Decl
-                       Model.Lang.Swift Model.Lang.Scala Spec.C12Spec Proofs.C12Obs.
-From TS Require Proofs.C12 Proofs.C12_Swift.
+                       Model.Lang.Swift Model.Lang.Scala Model.Lang.Go Model.Lang.Kotlin Spec.C12Spec Proofs.C12Obs.
+From TS Require Proofs.C12 Proofs.C12_Swift Proofs.C12_Go Proofs.C12_Kotlin.
 Import ListNotations.
 
 (* Swift, single file: for every program and configuration (any prefix, mappings, decorators), ()
@@ -51,3 +51,38 @@ Theorem C12_scala_unsigned_depth_refuted :
   c12_good [lit "UShort"] [] = false.
 Proof. exact Proofs.C12.c12_scala_refuted. Qed.
 Print Assumptions C12_scala_unsigned_depth_refuted.
+
+(* Go: for every program, and every configuration without uppercase_acronyms (c12_go_dom; it also
+   asks that no type name of the program itself starts with `time.` / `json.`): every package a
+   declaration refers to (time. in a type at any depth, json. in the methods of a tagged enum) is in
+   the import block written above the body. *)
+Theorem C12_go :
+  forall (uc : unicode) (cfg : go_config) (pd : parsed) (uses defs : list str),
+    c12_go_observe uc cfg pd = Ok (uses, defs) -> c12_go_dom cfg (items_of pd) = true ->
+    c12_good uses defs = true.
+Proof. exact Proofs.C12_Go.c12_go. Qed.
+Print Assumptions C12_go.
+
+(* Kotlin: for every program and configuration outside the two classes (empty package name; a
+   JvmInline value class), the annotations the declarations carry are imported by the header. *)
+Theorem C12_kotlin :
+  forall (uc : unicode) (cfg : kt_config) (pd : parsed) (uses defs : list str),
+    c12_kt_observe uc cfg pd = Ok (uses, defs) -> c12_kt_known cfg pd = None ->
+    c12_good uses defs = true.
+Proof. exact Proofs.C12_Kotlin.c12_kotlin. Qed.
+Print Assumptions C12_kotlin.
+
+Theorem C12_kotlin_empty_package_refuted :
+  c12_kt_known (Proofs.C12.c12_kt_cfg []) Proofs.C12.c12_nonvac_pd = Some "C12-kotlin-empty-package"%string /\
+  c12_kt_observe uc_exec (Proofs.C12.c12_kt_cfg []) Proofs.C12.c12_nonvac_pd = Ok ([lit "Serializable"], []) /\
+  c12_good [lit "Serializable"] [] = false.
+Proof. exact Proofs.C12.c12_kotlin_empty_package_refuted. Qed.
+Print Assumptions C12_kotlin_empty_package_refuted.
+
+Theorem C12_kotlin_jvminline_refuted :
+  c12_kt_known (Proofs.C12.c12_kt_cfg (lit "com.p")) Proofs.C12.c12_kt_inline_pd = Some "C12-kotlin-jvminline"%string /\
+  c12_kt_observe uc_exec (Proofs.C12.c12_kt_cfg (lit "com.p")) Proofs.C12.c12_kt_inline_pd =
+    Ok ([lit "Serializable"; lit "JvmInline"], [lit "Serializable"; lit "SerialName"]) /\
+  c12_good [lit "Serializable"; lit "JvmInline"] [lit "Serializable"; lit "SerialName"] = false.
+Proof. exact Proofs.C12.c12_kotlin_jvminline_refuted. Qed.
+Print Assumptions C12_kotlin_jvminline_refuted.
